@@ -376,7 +376,8 @@ theorem model_meets_spec (c : Opts) (os : List Op) :
     have h1 := specBound_ok c ((specLimit c : Int) - 1 + (0 : Nat)) (by omega) (Op.evs os) (ClientLimiter.new c) 0 rfl hinv hsort
     have h2 := specNoSpur_ok c ((0 : Nat) : Int) (by omega) (Op.evs os) (ClientLimiter.new c) [] 0 rfl hinv
       (fun k => tight_new c _ (by omega) hb k 0) hsort (evs_inRange os hr)
-    simp only [specEvs, run_length, beq_self_eq_true, h1, h2, Bool.and_self]
+    have h2' : specNoSpuriousRefusal c ((0 : Nat) : Int) (Op.evs os) ((ClientLimiter.new c).run (Op.evs os)) = true := h2
+    simp only [specEvs, run_length, beq_self_eq_true, h1, h2', Bool.and_self]
   · rfl
 
 /-- the specification is not vacuous: it rejects over-admission … -/
